@@ -597,6 +597,17 @@ Proof.
     + exact Hst.
 Qed.
 
+Lemma delx_keys_ok : forall i ks st, pend_ok st -> good (delx_keys insts keys delays i ks st).
+Proof.
+  intros i ks st Hst. unfold delx_keys. destruct (is_cache insts i); [|split; [exact Hst | constructor]].
+  apply (seq_cmds_ok _ _ (fun g => Forall (fun k => own i k = Some (fst g)) (snd g))).
+  - intros g st' Hg Hst'. unfold del_unsent. destruct delays as [|d0 ds]; [split; [exact Hst' | constructor]|].
+    split; cbn [fst snd]; [|constructor]. unfold pend_ok, add_pending. cbn [cpend].
+    apply Forall_app. split; [exact Hst'|]. constructor; [exact Hg | constructor].
+  - apply group_ok_l. constructor.
+  - exact Hst.
+Qed.
+
 Lemma fire_ok : forall p st, pending_owned p -> pend_ok st -> good (fire delays p st).
 Proof.
   intros p st Hp Hst. unfold fire, good.
@@ -619,10 +630,11 @@ Qed.
 (* one step: the waiting retries stay owned, and every command sent goes to Get(key)'s node *)
 Lemma cstep_ok : forall st o, pend_ok st -> good (cstep insts keys delays st o).
 Proof.
-  intros st o Hst. destruct o as [i k|i ks|s on| | |]; cbn [cstep].
+  intros st o Hst. destruct o as [i k|i ks|i ks|s on| | |]; cbn [cstep].
   - destruct (own i k) as [s|] eqn:E; [|split; [exact Hst | constructor]].
     split; cbn [fst snd]; [exact Hst|]. constructor; [exact E | constructor].
   - apply del_keys_ok. exact Hst.
+  - apply delx_keys_ok. exact Hst.
   - split; [exact Hst | constructor].
   - apply (seq_cmds_ok _ _ pending_owned).
     + intros p st' Hp Hst'. apply tick_one_ok; assumption.
